@@ -525,6 +525,12 @@ def channel_send_paths(ctx):
                     pos = True
                     while isinstance(tst, ast.UnaryOp) and isinstance(tst.op, ast.Not):
                         tst, pos = tst.operand, not pos
+                    if isinstance(tst, ast.Constant):
+                        # the test is a local that holds a constant on this path (a flag computed up front): only the matching
+                        # branch is feasible
+                        taken = st.body if bool(tst.value) == pos else st.orelse
+                        new += block(taken, [(guards, writes, env, False)])
+                        continue
                     new += block(st.body, [(guards + [(tst, pos)], writes, env, False)])
                     new += block(st.orelse, [(guards + [(tst, not pos)], writes, env, False)])
                 elif isinstance(st, ast.Return) and (st.value is None or isinstance(st.value, ast.Constant) and st.value.value is None):
